@@ -32,6 +32,7 @@ def dispatch (e : Engines) (ws : List String) : Engines × String :=
       let (s, o) := Driver.Rid.step e.rid ws; ({ e with rid := s }, o)
     else if w == "conc.race" then (e, "one-handle")   -- C01_unique_handle / C01_one_winner: every interleaving
     else if w == "conc.probe" then (e, "stable")      -- C01_presence_monotone
+    else if w == "hr.rewire" then (e, "observed")     -- same ordering question for an already cached asset; oracle only
     else if w == "hr.newdep" then (e, "observed")     -- known finding F-C05d: the outcome depends on a hash-set order; oracle only
     else if w == "own.sizes" then (e, "intact")       -- C13: a reload swaps the whole value, whatever its size and alignment
     else if w.startsWith "by." then let (s, o) := Driver.Bytes.step e.bytes ws; ({ e with bytes := s }, o)
